@@ -85,15 +85,21 @@ def multiSel : Segment → Bool
   | .selectors ss => ss.length ≥ 2
   | _ => false
 
+/-- input of the selectors of a segment: the nodes themselves, or all their descendants-or-self -/
+def segInput : Segment → List Spec.Node → List Spec.Node
+  | .descendant s, ns => segInput s (ns.flatMap fun (n : Spec.Node) => Spec.desc n.1 n.2)
+  | _, ns => ns
+def segSelCount : Segment → Nat
+  | .descendant s => segSelCount s
+  | .selectors ss => ss.length
+  | .selector _ => 1
+
 /-- C02 known-finding class: some segment with ≥ 2 selectors receives ≥ 2 input nodes
 (checked on the Spec side, segment by segment) -/
 def multiSelOnMulti (E : Engine) (root : Json) : List Segment → List Spec.Node → Bool
   | [], _ => false
   | s :: ss, ns =>
-    let input := match s with
-      | .descendant _ => ns.flatMap fun (n : Spec.Node) => Spec.desc n.1 n.2
-      | _ => ns
-    (multiSel s && input.length ≥ 2) || multiSelOnMulti E root ss (Spec.seg E root s ns)
+    (decide (segSelCount s ≥ 2) && decide ((segInput s ns).length ≥ 2)) || multiSelOnMulti E root ss (Spec.seg E root s ns)
 
 def plainChar (c : Char) : Bool := c != '\'' && c != '\\' && decide (c.toNat ≥ 0x20)
 mutual
